@@ -85,6 +85,7 @@ type Scenario struct {
 	WaitEarly bool      `json:"wait_early,omitempty"`      // Wait is invoked while clients still run
 	Anchor    bool      `json:"anchor,omitempty"`          // bar 0 is kept running until clients are done (keeps the wait group above zero)
 	Chain     int       `json:"chain,omitempty"`           // C16: number of containers run back to back
+	NilDbg    bool      `json:"nil_dbg,omitempty"`         // WithDebugOutput(nil): errors are reported to nobody (must still not panic)
 	NilOut    bool      `json:"nil_out,omitempty"`         // mode none: WithOutput(nil) (documented: discards any output)
 }
 
